@@ -23,7 +23,7 @@ meta = {
         'demo_without_change': 'passes' if m.get('demo_without') == '0' else 'FAILS (unexpected)',
         'how': f'bin/seedtest {name} {prop} quick {flags}'.strip() + '  (scratch worktree of /repo HEAD, removed afterwards)',
     },
-    'caught_by': [] if caught == 'none' else caught.split(','),
+    'caught_by': [] if caught == 'none' else [caught],
     'check_exit': int(m.get('check_exit', -1)),
 }
 json.dump(meta, open(os.path.join(dst, 'meta.json'), 'w'), indent=1)
